@@ -98,7 +98,7 @@ static std::string itv_str(const interval_t &i) {
   return os.str();
 }
 
-GammaResult in_gamma(const AbsVal &inv, const Sigma &s, const GammaOpts &o) {
+GammaResult in_gamma(const AbsVal &inv, const Sigma &s, const GammaOpts &o, GammaCache *cache) {
   GammaResult r;
   auto fail = [&](const char *item, const std::string &d) {
     r.ok = false;
@@ -125,7 +125,13 @@ GammaResult in_gamma(const AbsVal &inv, const Sigma &s, const GammaOpts &o) {
     }
   }
   if (o.export_lin) {
-    lin_cst_sys_t sys = inv.to_lin();
+    lin_cst_sys_t local;
+    if (cache && !cache->has_lin) {
+      cache->lin = inv.to_lin();
+      cache->has_lin = true;
+    } else if (!cache)
+      local = inv.to_lin();
+    const lin_cst_sys_t &sys = cache ? cache->lin : local;
     for (auto const &c : sys) {
       if (eval_cst_sigma(c, s) == 0)
         return fail("lin", "exported constraint " + cst_str(c) + " is false in " + s.str());
